@@ -1,5 +1,5 @@
 """C07 — receive path is memory-safe and UB-free on arbitrary samples and frames."""
-from lib import core, decgen, demodlib
+from lib import core, decgen, demodlib, m17spec as S
 from lib.prop import Prop
 
 
@@ -37,7 +37,62 @@ class C07(Prop):
             "or handler input with EOF; distinct = distinct request lines")
 
     def setup_drivers(self):
-        return list(demodlib.drivers())
+        return list(demodlib.drivers()) + [self.fec_driver()]
+
+    def fec_driver(self):
+        return core.build_cpp("drv_fec", ["drv_fec.cpp"], deps=["drv_fec_ops.inc", "spec.h"])
+
+    def lich_slot_stage(self, ctx):
+        """LICH fragment slot stays 0..5: Golay-valid fragments whose counter is 6 or 7, at every point of a partial collection
+        (after k = 0..5 valid fragments, singly and in runs), must leave the collected state (mask, 30-byte LSF buffer) untouched, and the
+        mask never gets a bit above 5.  An intra-object overflow past the LSF array is invisible to ASan, so the state is the observable."""
+        rng = ctx.rng
+        quick = ctx.tier == "quick"
+        exe = self.fec_driver()
+        lines, metas = [], []
+        for h in range(40 if quick else 600):
+            g = decgen.Gen(rng)
+            lsf = g.rand_lsf(0x0005)
+            lines.append("dec_new"); metas.append(None)
+            order = list(range(6)); rng.shuffle(order)
+            k = h % 6 if h < 12 else rng.randrange(6)
+            plan = [order[i] for i in range(k)]
+            if h < 12 and k == 5:
+                plan = [0, 1, 2, 3, 4] if h < 6 else [1, 2, 3, 4, 5]
+            plan += [rng.choice([6, 7]) for _ in range(1 if h % 2 == 0 else rng.randrange(1, 9))]
+            plan += [rng.randrange(8) for _ in range(rng.randrange(0, 6))]
+            for t, n in enumerate(plan):
+                bits = S.stream_frame_bits(lsf, n, t, bytes(rng.randrange(256) for _ in range(16)), None)
+                v = S.soft(bits, g.mags())
+                lines.append("dec_frame 1 1 " + " ".join(map(str, v)))
+                metas.append({"n": n})
+        impl = ctx.run_impl(exe, lines, "dec-slot")
+        prev = None
+        for ln, m, a in zip(lines, metas, impl):
+            if m is None:
+                prev = None
+                continue
+            ctx.count(ln, nontrivial=True)
+            r = decgen.parse_reply(a)
+            if not r:
+                continue
+            ctx.stat(f"lich-slot:counter{m['n']}")
+            if r["mask"] & 0xC0:
+                ctx.violate("dec-slot:mask", f"LICH fragment slot outside 0..5: collection mask became {r['mask']:#04x} after a fragment with counter {m['n']}",
+                            {"stream": "dec-slot", "ops": self.hist(lines, ln), "impl": a})
+            if m["n"] > 5 and prev is not None and prev["mode"] == 0 and (r["mask"] != prev["mask"] or r["lsfbuf"] != prev["lsfbuf"] or r["mode"] != 0):
+                ctx.violate("dec-slot:state", f"a LICH fragment with reserved counter {m['n']} changed the collected link setup state "
+                            f"(mask {prev['mask']:#04x} -> {r['mask']:#04x}, buffer {'changed' if r['lsfbuf'] != prev['lsfbuf'] else 'same'}): slot outside 0..5",
+                            {"stream": "dec-slot", "ops": self.hist(lines, ln), "impl": a})
+            prev = r
+        if ctx.model_ok:
+            model = ctx.run_model(lines)
+            ctx.compare("dec-slot", lines, impl, model, oracle=lambda ln, a: None, sig=lambda ln: "step")
+
+    @staticmethod
+    def hist(lines, ln):
+        from lib import deccheck
+        return deccheck.history(lines, ln)
 
     def impl_driver(self, ctx):
         return demodlib.drivers()[0]
@@ -46,6 +101,7 @@ class C07(Prop):
         demod, mod = demodlib.drivers()
         rng = ctx.rng
         quick = ctx.tier == "quick"
+        self.lich_slot_stage(ctx)
         lines = []
         # app handlers with arbitrary content
         for _ in range(300 if quick else 5000):
